@@ -123,6 +123,18 @@ def check_loop(ctx, cls, dw):
                       f'the {what} defaults are built by `{norm(v)}`, not by copy.deepcopy(self.{attr}): calls share (parts of) the default objects',
                       where=loc(dw, defs_all[0]))
             facts[f'{what}-copy'] = 'deepcopy' if dc else norm(v)
+            # nothing defined outside the iteration may flow into the per-call defaults (a memo dict, a cached copy, ...)
+            outer_defs = {t.id for st in walk_local(dw.node) if isinstance(st, (ast.Assign, ast.AugAssign)) and not any(st is x for x in ast.walk(lp))
+                          for t in (st.targets if isinstance(st, ast.Assign) else [st.target]) if isinstance(t, ast.Name)}
+            used = {n.id for n in ast.walk(v) if isinstance(n, ast.Name)}
+            carried = sorted(used & outer_defs)
+            ctx.check('R1', f'{F}: the {what} defaults of a call do not depend on state carried over from earlier iterations', not carried, F,
+                      f'defaults-loop-carried:{what}:' + ','.join(carried),
+                      f'the {what} defaults are built from `{norm(v)}`, which uses {carried} defined outside the loop: state of earlier calls (e.g. a deepcopy memo that returns the '
+                      'copies made for the first call) reaches later calls - they do not see pristine defaults', where=loc(dw, defs_all[0]))
+            extra_args = [a for c in dc for a in c.args[1:]] + [k for c in dc for k in c.keywords]
+            ctx.check('R1', f'{F}: copy.deepcopy is called without a caller-supplied memo', not extra_args, F, f'deepcopy-with-memo:{what}',
+                      'copy.deepcopy is given a memo: objects already copied for an earlier call are returned again instead of fresh copies', where=loc(dw, defs_all[0]))
             if what == 'positional':
                 listy = (isinstance(v, ast.Call) and is_name(v.func, 'list')) or isinstance(v, ast.List) or \
                     (isinstance(v, ast.BinOp) and isinstance(v.left, ast.List))
